@@ -53,3 +53,45 @@ def run_assign(mode: str, maxw: int, maxl: int, costs: list[int],
 
 def work_dict(work: list[dict[str, Any]]) -> dict[str, dict[str, float]]:
     return {l['name']: {x['f']: x['c'] for x in l['fs']} for l in work}
+
+
+def cross_interpreter(tuples: list[dict[str, Any]], seeds: tuple = (0, 1, 2, 7, 12345),
+                      ) -> str | None:
+    """Evaluate the assignments of `tuples` in fresh interpreters with
+    different PYTHONHASHSEED values (ranks are separate processes in a real
+    job); all results must be identical."""
+    import os
+    import subprocess
+    import tempfile
+    from harness.common import REPO, VERIF
+
+    ts = [tp['t'] for tp in tuples]
+    with tempfile.NamedTemporaryFile('w', suffix='.json', delete=False) as f:
+        json.dump(ts, f)
+        path = f.name
+    try:
+        outs = {}
+        for s in seeds:
+            env = dict(os.environ, PYTHONHASHSEED=str(s))
+            p = subprocess.run(
+                ['/venv/bin/python', os.path.join(VERIF, 'harness',
+                                                  'hashseed_probe.py'),
+                 path, REPO], capture_output=True, text=True, env=env,
+                timeout=600)
+            if p.returncode != 0:
+                return f'probe failed under PYTHONHASHSEED={s}: {p.stderr[-300:]}'
+            outs[s] = p.stdout.strip()
+        base = outs[seeds[0]]
+        for s in seeds[1:]:
+            if outs[s] != base:
+                a, b = json.loads(base), json.loads(outs[s])
+                for i, (x, y) in enumerate(zip(a, b)):
+                    if x != y:
+                        return (f'assignment depends on the interpreter hash '
+                                f'seed: PYTHONHASHSEED={seeds[0]} gives '
+                                f'{json.dumps(x)[:200]} but {s} gives '
+                                f'{json.dumps(y)[:200]} for {json.dumps(ts[i])[:300]}')
+                return 'assignment depends on the interpreter hash seed'
+    finally:
+        os.unlink(path)
+    return None
